@@ -105,6 +105,8 @@ def judge(ctx, config: dict, prefix, outcome, mode: str) -> None:
                 key = "stale-value-written-after-newer"
             else:
                 key = "racing-send-never-written"  # e.g. the flush pops an entry a concurrent send just replaced
+        if config.get("reuse_objects") and key.startswith(("racing-send", "stale-value", "lost-update")):
+            key += "-reused-object"  # its own mechanism (F22): the application sends the same Message object again
         ctx.violation(key, f"schedule {' '.join(outcome.labels)}: {what}", case)
     for err in outcome.listener_errors:
         if not err["library"]:
